@@ -99,6 +99,19 @@ def build(spec: dict):
         import shutil
         shutil.rmtree(d, ignore_errors=True)
         return k
+    if spec.get("scratch"):
+        # a caller that assembles the network through ONE work array (a loop over a table, a walker's position updated in
+        # place): what the network stores must not follow the array
+        dim = len(spec["coords"][0]) if spec["coords"] else 1
+        buf = np.zeros(dim)
+        for c, e in zip(spec["coords"], spec["E"]):
+            buf[:] = np.array(c, dtype=float)
+            k.add_minimum(buf, float(e))
+        for u, v, e, c in spec["ts"]:
+            buf[:] = (list(c) + [0.0] * dim)[:dim]
+            k.add_ts(buf, float(e), int(u), int(v))
+        buf[:] = 9.75e8
+        return k
     for i, (c, e) in enumerate(zip(spec["coords"], spec["E"])):
         if i == 0 and spec.get("int_first"):
             # a minimum typed by hand as integers (the origin, a lattice point): coordinates are coordinates
@@ -670,6 +683,8 @@ def predicates(ctx: Ctx) -> None:
     n = ctx.scale(60, 500) * (4 if getattr(ctx, "deep_search", False) else 1)
     for it in range(n):
         spec = float_spec(rng) if it % 2 else random_spec(rng, nmax=10)
+        if it % 5 == 3 and all(len(t[3]) == len(spec["coords"][0]) for t in spec["ts"]):
+            spec = dict(spec, scratch=True)
         if it % 3 == 2:
             # the zero of energy is arbitrary (total energies of order 1e4-1e5): every statement of C18 is about
             # energy differences, so the same landscape shifted by a constant must behave the same
